@@ -303,6 +303,12 @@ class ParallelChannelPulseTemplate(PulseTemplate):
             transformation = ParallelChannelTransformation(overwritten_channels)
             return TransformingWaveform.from_transformation(inner_waveform, transformation)
 
+    def get_measurement_windows(self,
+                                parameters: Dict[str, numbers.Real],
+                                measurement_mapping: Dict[str, Optional[str]]) -> List[MeasurementWindow]:
+        """This gets called if the parent is atomic"""
+        return self._template.get_measurement_windows(parameters=parameters, measurement_mapping=measurement_mapping)
+
     @property
     def defined_channels(self) -> AbstractSet[ChannelID]:
         return set().union(self._template.defined_channels, self._overwritten_channels.keys())
